@@ -55,7 +55,7 @@ func prepDataVSF64(a Tensor, b interface{}, reuse Tensor) (dataA *storage.Header
 		dataReuse = reuse.hdr()
 	}
 
-	if a.RequiresIterator() || (reuse != nil && reuse.RequiresIterator()) {
+	if a.RequiresIterator() || (reuse != nil && (reuse.RequiresIterator() || !reuse.DataOrder().HasSameOrder(a.DataOrder()))) {
 		ait = a.Iterator()
 		if reuse != nil {
 			iit = reuse.Iterator()
@@ -186,8 +186,13 @@ func (e Float64Engine) Add(a Tensor, b Tensor, opts ...FuncOpt) (retVal Tensor, 
 	var hdrA, hdrB, hdrReuse *storage.Header
 	var dataA, dataB, dataReuse []float64
 
-	if hdrA, hdrB, hdrReuse, _, _, _, _, _, err = prepDataVV(a, b, reuse); err != nil {
+	var useIter bool
+	if hdrA, hdrB, hdrReuse, _, _, _, useIter, _, err = prepDataVV(a, b, reuse); err != nil {
 		return nil, errors.Wrapf(err, "Float64Engine.Add")
+	}
+	if useIter {
+		// the vector kernels below are only valid for contiguous data of one data order
+		return e.StdEng.Add(a, b, opts...)
 	}
 	dataA = hdrA.Float64s()
 	dataB = hdrB.Float64s()
